@@ -23,6 +23,14 @@ def make_cases(rng, tier, n):
                             (b"dup_b.yaml", dict(cmd=b"", wd=b".", out=[(b"dup_b.bin", "")], **{"in": [(b"dup_a.bin", "")]}))]
         ops = [("commit", rng.choice("lc"), []), ("corrupt", rng.randrange(200), spec)]
         r = rng.random()
+        if any(sp_ == b"dup_b.yaml" for sp_, st_ in c["stages"]) and rng.random() < 0.7:
+            # the shared object is the corrupted one; the upstream copy is intact in the workspace, the downstream one is gone
+            ops = [("commit", "c", []), ("corrupt", "p" + s1.hx(b"dup_a.bin"), spec), ("rm", b"dup_b.bin"), ("checkout", "c", False, [b"dup_b.yaml"])]
+            c["ops"] = ops
+            c["kind"] = kind + "-shared"
+            stats["kind_shared"] = stats.get("kind_shared", 0) + 1
+            cases.append(c)
+            continue
         if r < 0.35:
             ops.append(("clone", keep))
         elif r < 0.6:
